@@ -41,6 +41,15 @@ def plugin_triggers():
     return trig, per_rule
 
 
+_SWEEP, _SWEEP_AT = [], [0]
+
+
+def _sweep():
+    if not _SWEEP:
+        _SWEEP.extend(gen.slot_sweep())
+    return _SWEEP
+
+
 def strip_chars(doc, chars):
     return "".join(c for c in doc if c not in chars)
 
@@ -86,7 +95,17 @@ def oracle(ctx, trig, n_docs, per_rule={}):
             if any(a != b and b.startswith(a) and keys.index(b) < keys.index(a) for a in keys for b in keys):
                 doc = "plain words\n"        # (the abbr prefix-key finding is C09's known finding; not re-reported here)
         else:
-            doc = strip_chars(gen.md_nested(ctx.rng) if ctx.rng.random() < 0.25 else gen.md_any(ctx.rng, 8), chars)
+            rr = ctx.rng.random()
+            if rr < 0.25:
+                # the systematic template documents (every template with every filler of one slot), walked through in order across the run
+                sweep = _sweep()
+                _SWEEP_AT[0] = (_SWEEP_AT[0] + 1) % len(sweep)
+                raw = sweep[(_SWEEP_AT[0] * 7919 + ctx.seed) % len(sweep)]
+                if len(raw) > 2000:
+                    raw = gen.md_any(ctx.rng, 8)
+            else:
+                raw = gen.md_nested(ctx.rng) if rr < 0.45 else gen.md_any(ctx.rng, 8)
+            doc = strip_chars(raw, chars)
         if P == "rst":
             doc = doc.replace("..", "")
         try:
